@@ -283,6 +283,9 @@ func clientWrites(prop string) int {
 		"exhaustive":                    true,
 		"rule":                          fmt.Sprintf("client-level part: every ordered pair of %d write requests (create, revert, set / delete metadata on accounts and transactions, bulk elements) x 10 key assignments (same key, case / padding variants, one keyed, none, distinct, a key that is not valid UTF-8, keys of 255 / 256 / 300 characters) x with/without a restart in between [thorough: + triples], sent through the real v1 and v2 routers (Idempotency-Key header, ik of a bulk element) onto a real Commander over memstore; states = sequences, transitions = requests", len(reqs)),
 	}
+	// the stand-in the scheduler part runs on, validated against the real store (realstore.go)
+	rsH, rsS := realStoreConformance(rep, "")
+	cov["realstore_histories"], cov["realstore_steps"] = rsH, rsS
 	return rep.Finish(cov)
 }
 
